@@ -168,4 +168,17 @@ __CPROVER_ensures((!stream->fail && nv_g < NV_NFIELDS - 1) ==> nv_f_val == NV_FM
 __CPROVER_ensures((!stream->fail && nv_g == NV_NFIELDS - 1 && tensor->size > 0) ==> nv_f_cid == __CPROVER_old(nv_c_id)) \
 /* 5 the content identity is still the tensor's (nothing else was transferred) */ \
 __CPROVER_ensures(nv_c_id == __CPROVER_old(nv_c_id) && nv_c_ptr == __CPROVER_old(nv_c_ptr) && nv_c_n == __CPROVER_old(nv_c_n))
+
+/* the same writer WITHOUT the stated "every dim fits int32" precondition (target tensor_write_dims_*): a live tensor whose
+ * dimension is >= 2^31 must not be written with a header that is not its own.  The obligation that fails is the
+ * conversion check on write_cast's static_cast<int32_t>(data[i]). */
+#if NV_RANK == 1
+#define NV_CONTRACT_tensor_write_dims \
+__CPROVER_requires(NV_OS_OK(stream) && __CPROVER_is_fresh(tensor, sizeof(struct nv_tensor))) \
+__CPROVER_requires(0 <= tensor->m_dims.d[0] && tensor->size == tensor->m_dims.d[0] && tensor->size <= NV_MAXALLOC / NV_SZ) \
+__CPROVER_requires(tensor->size == 0 || (__CPROVER_is_fresh(tensor->data, NV_SZ * tensor->size) && nv_c_ptr == tensor->data && nv_c_n == NV_SZ * tensor->size)) \
+__CPROVER_requires(nv_nfields == 0) \
+__CPROVER_assigns(stream->pos, stream->fail, nv_gh) \
+__CPROVER_ensures((!stream->fail && nv_g == 2) ==> nv_f_val == (uint64_t)tensor->m_dims.d[0])
+#endif
 #endif
